@@ -134,10 +134,10 @@ def row? (ws : List String) : Option Row :=
 /-- stand-ins for the hand-written handlers: they accept anything, leave every other argument alone and
 (when they own an argument) mark it as present; they write nothing -/
 def stubImpl (r : Row) : CustomImpl Leaf :=
-  ⟨fun kw _ => some (match optArg r.argName with
+  { handle := fun kw _ => some (match optArg r.argName with
       | some a => if r.kind = "CustomElement" then kw.set a (.one .none) else kw
       | none => kw),
-   fun _ => [], fun _ => []⟩
+    attrsOut := fun _ => [], childrenOut := fun _ => [] }
 
 partial def tree? : List String → Option (Xml × List String)
   | "N" :: ns :: name :: na :: rest => do
@@ -279,6 +279,23 @@ def bound? : List String → Option (Bound × List String)
 
 def parentOf (cs : List Xml) : String := showTree (.node ⟨none, "parent"⟩ [] cs "")
 
+def showGain : Option Gain → String
+  | none => "~"
+  | some (.linear k) => s!"L {k}"
+  | some (.dB k) => s!"D {k}"
+
+def showZone : Zone → String
+  | .cartesian a b c d e f => s!"C {a} {b} {c} {d} {e} {f}"
+  | .polar a b c d => s!"P {a} {b} {c} {d}"
+
+def zones? : List String → Option (List Zone)
+  | [] => some []
+  | "C" :: a :: b :: c :: d :: e :: f :: rest => do
+    some (.cartesian (← a.toInt?) (← b.toInt?) (← c.toInt?) (← d.toInt?) (← e.toInt?) (← f.toInt?) :: (← zones? rest))
+  | "P" :: a :: b :: c :: d :: rest => do
+    some (.polar (← a.toInt?) (← b.toInt?) (← c.toInt?) (← d.toInt?) :: (← zones? rest))
+  | _ => none
+
 def answerH (ws : List String) : String :=
   match ws with
   | "hp" :: which :: rest =>
@@ -299,8 +316,60 @@ def answerH (ws : List String) : String :=
         | some (.cartesian a b c s) =>
           s!"C {showBound a} {showBound b} {showBound c} {showOptStr s.horizontal} {showOptStr s.vertical}"
         | none => "E"
+      else if which = "opos" then
+        match parseObjectPosition e.children with
+        | some (.polar a b c s) => s!"P {a} {b} {c} {showOptStr s.horizontal} {showOptStr s.vertical}"
+        | some (.cartesian a b c s) => s!"C {a} {b} {c} {showOptStr s.horizontal} {showOptStr s.vertical}"
+        | none => "E"
+      else if which = "gain1" ∨ which = "gain2" then
+        match parseGainElements (which == "gain2") e.children with
+        | some g => showGain g
+        | none => "E"
+      else if which = "gattr1" ∨ which = "gattr2" then
+        match handleGainAttribute (which == "gattr2") e with
+        | some g => showGain g
+        | none => "E"
+      else if which = "clock" then
+        match parseChannelLock e.children with
+        | some (some c) => s!"1 {showOptInt c.maxDistance}"
+        | some none => "~"
+        | none => "E"
+      else if which = "div" then
+        match parseDivergence e.children with
+        | some (some d) => s!"{d.value} {showOptInt d.azimuthRange} {showOptInt d.positionRange}"
+        | some none => "~"
+        | none => "E"
+      else if which = "zones" then
+        match parseZoneExclusion e.children with
+        | some (some zs) => " ".intercalate (s!"Z {zs.length}" :: zs.map showZone)
+        | some none => "~"
+        | none => "E"
       else "bad-op"
     | _ => "bad-op"
+  | ["hx", "opos", kind, a, b, c, h, v] =>
+    match a.toInt?, b.toInt?, c.toInt?, optStr? h, optStr? v with
+    | some a, some b, some c, some h, some v =>
+      if kind = "P" then parentOf (objectPositionToXml (.polar a b c ⟨h, v⟩))
+      else if kind = "C" then parentOf (objectPositionToXml (.cartesian a b c ⟨h, v⟩))
+      else "bad-op"
+    | _, _, _, _, _ => "bad-op"
+  | ["hx", "gain", k] => match k.toInt? with | some k => parentOf (gainToXml k) | none => "bad-op"
+  | ["hx", "ogain", k] => match optInt? k with | some k => parentOf (optionalGainToXml k) | none => "bad-op"
+  | ["hx", "gattr", k] =>
+    match optInt? k with
+    | some k => showTree (.node ⟨none, "parent"⟩ (gainAttributeToXml k) [] "")
+    | none => "bad-op"
+  | ["hx", "clock", "~"] => parentOf (channelLockToXml none)
+  | ["hx", "clock", "1", m] => match optInt? m with | some m => parentOf (channelLockToXml (some ⟨m⟩)) | none => "bad-op"
+  | ["hx", "div", "~"] => parentOf (divergenceToXml none)
+  | ["hx", "div", v, a, pr] =>
+    match v.toInt?, optInt? a, optInt? pr with
+    | some v, some a, some pr => parentOf (divergenceToXml (some ⟨v, a, pr⟩))
+    | _, _, _ => "bad-op"
+  | "hx" :: "zones" :: rest =>
+    match zones? rest with
+    | some zs => parentOf (zoneExclusionToXml zs)
+    | none => "bad-op"
   | ["hx", "freq", lo, hi] =>
     match optInt? lo, optInt? hi with
     | some lo, some hi => parentOf (frequencyToXml ⟨lo, hi⟩)
